@@ -236,7 +236,8 @@ def main(tier, replay=None):
     # the host edits its lists in place between two evaluations of the same call
     mo = fncases.observe_after_mutation(lib, cases[::7][:800 if quick else 10000])
     run.extra['evaluations_after_in_place_edit'] = len(mo)
-    judge(mo)
+    for k in range(0, len(mo), 2500):      # (10000 at once were a 148 MB batch that kept TLC at its heap limit for over half an hour)
+        judge(mo[k:k + 2500])
     obs = []
     so = suite.observations({'SUM','PRODUCT','AVERAGE','MIN','MAX','COUNT','MEDIAN','MODE','MODE.SNGL','VAR','VAR.S','VARP','VAR.P','AVEDEV','HARMEAN','LARGE','SLOPE','SUMIF','COUNTIF','AVERAGEIF','SUMIFS','AVERAGEIFS','MAXIFS'}, len(obs) + 1)   # the same functions as the repository's own tests call them
     run.extra['calls_from_repository_tests'] = len(so)
@@ -274,7 +275,8 @@ def main(tier, replay=None):
         o['out'] = {'keys': ['error', 'result'], 'res': enc(True), 'err': '', 'errkind': 'none'}
         o['checks'] = ['value']
         obs.append(o)
-    judge(obs)
+    for k in range(0, len(obs), 4000):
+        judge(obs[k:k + 4000])
     # integers no double can hold: SUM is still their exact sum, however the items are grouped (Trace_Big)
     from .c06 import signed, big_out
     big = []
